@@ -381,6 +381,13 @@ func (d *DBFT[H]) onPrepareRequest(msg ConsensusPayload[H]) {
 		return
 	}
 
+	if d.IsPrimary() {
+		// It's our own PrepareRequest (restarted node gets it from the
+		// recovery message), primary never responds to it.
+		d.checkPrepare()
+		return
+	}
+
 	d.sendPrepareResponse()
 	d.checkPrepare()
 }
